@@ -970,9 +970,48 @@ def check_c15(tier, seed):
         for a in group:
             for b in group:
                 add_cmp(a, b)
+    # hazard strings on a random stream of their own: not in normal form C, unusual case mappings, invisible characters,
+    # white space at the ends, outside the BMP
+    hrng = random.Random(seed * 13 + 1515)
+    hp = ["e\u0301", "\u00e9", "\u212b", "\u00c5", "\u2126", "\u212a", "K", "\u017f", "\u0131", "\u0130", "\ufb01", "kegg", "kegg.compound", "go", "go2", "a", "a-b", "a b",
+          "GO ", " GO", "\U0002f800", "\u1100\u1161", "\uac00", "a\u200cb", ""]
+    hi = ["e\u0301", "\u00e9", "\u212b", "\u2126", "\U0002f800", "\u1100\u1161", "o\u0302\u0323", "o\u0323\u0302", "1 ", " 1", "a\u200db", "x:e\u0301", "0" * 64, ""]
+    for _ in range(40 if quick else 500):
+        group = []
+        for _ in range(hrng.randrange(2, 5)):
+            cls = hrng.choice(REF_CLASSES)
+            pfx, ident, name = hrng.choice(hp), hrng.choice(hi), hrng.choice([None, "n", "e\u0301"])
+            if cls == "named" and name is None:
+                name = "n"
+            try:
+                o = build_ref(cls, pfx, ident, name, None)
+            except Exception:  # noqa: BLE001
+                continue
+            group.append(o)
+            add_object_checks(o)
+            add_from_curie(cls, pfx + ":" + ident, ":", name, 0)
+            add_validate(cls, pfx + ":" + ident, 0)
+        for a in group:
+            for b in group:
+                add_cmp(a, b)
     from curies.triples import Triple, read_triples, write_triples
     tdir = tlc.scratch("triples")
     try:
+        # one LONG triples file (more rows than any plausible batch size), plain and gzip
+        few = [curies.Reference(prefix=a, identifier=b) for a in ("go", "e\u0301", "chebi") for b in ("1", "2", "x:y", "\u212b")]
+        for gz in (False, True):
+            n_long = 5003 if gz else 10007
+            rows = [[few[(7 * k + j) % len(few)] for j in range(3)] for k in range(n_long)]
+            rows[5000] = [curies.Reference(prefix="marker", identifier="row5001")] * 3
+            path = os.path.join(tdir, "long.tsv" + (".gz" if gz else ""))
+            try:
+                write_triples([Triple(subject=r[0], predicate=r[1], object=r[2]) for r in rows], path)
+                back = read_triples(path)
+                out = ["ok", [[enc_ref(I, t.subject), enc_ref(I, t.predicate), enc_ref(I, t.object)] for t in back]]
+            except Exception as e:  # noqa: BLE001
+                out = impl.enc_exc(e)
+            calls.add({"f": "triples", "rows": [[I(x.curie) for x in r] for r in rows], "gz": gz, "out": out},
+                      {"f": "triples", "rows": f"{n_long} rows over {len(few)} references, row 5001 marked", "gz": gz, "out": "ok" if out[0] == "ok" else out[:3]})
         for k in range(25 if quick else 300):
             rows = []
             for _ in range(rng.randrange(1, 5)):
@@ -1251,6 +1290,18 @@ def check_c16(tier, seed):
             lab = rng.choice(["str", "index", "int", "empty", "index"])
             tgt = {"str": [None, "new"], "index": [None, "new"], "int": [None, 0, 2, 5], "empty": [None, "", "new"]}[lab]
             pd_op(ci, k2, amb, rng.random() < 0.3, rng.random() < 0.5, vals, rng.choice(tgt), lab)
+    # LONG files (more rows than any plausible batch size): all cells convert / the first failing cell far down / a short row far down
+    lrecs = [{"p": "GO", "u": "http://purl.obolibrary.org/obo/GO_", "ps": ["go"], "us": [], "pat": None}]
+    lci = add_conv(lrecs, ":")
+    nlong = 1100 if quick else 2600
+    for fail_at, short_at in ((None, None), (nlong - 40, None), (None, nlong - 25)):
+        table = [["curie", "n"]] + [[f"GO:{k:07d}", str(k)] for k in range(nlong)]
+        if fail_at is not None:
+            table[fail_at + 1][0] = "unknownprefix:1"
+        if short_at is not None:
+            table[short_at + 1] = []
+        file_op(lci, "expand", False, True, False, True, 0, table, None)
+    pd_op(lci, "expand", False, False, False, [f"GO:{k:07d}" for k in range(300)] + ["nope:1"], "new", "index")
     shutil.rmtree(tdir, ignore_errors=True)
     batch = {"strs": I.table(), "convs": convs, "traces": traces}
     fails, rejected, stv = validate_bulk(batch, 1200 if quick else 3400)
@@ -1374,48 +1425,57 @@ def check_c14(tier, seed):
         if cache[key]:
             roundtrip(cache[key], op["fmt"], op["syn"], op["expand"])
     n_model = len(calls.calls)
-    # random converters over the hazard alphabets of each format's quantifier
-    for _ in range(120 if quick else 2500):
-        fmt = rng.choice(["epm", "jsonld", "shacl", "tsv"])
-        alpha = {"epm": HAZ_EPM, "jsonld": HAZ_JSONLD, "shacl": HAZ_TTL, "tsv": HAZ_TTL}[fmt]
-        recs, P, U = [], set(), set()
-        for _ in range(rng.randrange(1, 5)):
-            p = _hz(rng, alpha if fmt != "jsonld" else [a for a in alpha if a != "@"], must=("p" if fmt == "jsonld" else ""))
-            u = _hz(rng, alpha, (1, 8))
-            ps = sorted({_hz(rng, alpha if fmt != "jsonld" else [a for a in alpha if a != "@"], must=("s" if fmt == "jsonld" else "")) for _ in range(rng.randrange(0, 3))} - {p})
-            us = sorted({_hz(rng, alpha, (1, 8)) for _ in range(rng.randrange(0, 3))} - {u})
-            pat = rng.choice(PATTERNS + [None, None]) if fmt in ("epm", "shacl") else None
-            if fmt == "epm" and rng.random() < 0.3:
-                pat = _hz(rng, alpha, (1, 6))
-            ap, au = {p, *ps}, {u, *us}
-            if ap & P or au & U:
-                continue
-            P |= ap
-            U |= au
-            recs.append({"p": p, "u": u, "ps": ps, "us": us, "pat": pat})
-        if not recs:
-            continue
-        ci = calls.conv(recs, ":")
-        for syn in (False, True):
-            for expand in ((False, True) if fmt == "jsonld" else (False,)):
-                if fmt in ("epm", "tsv") and syn:
+    # random converters over the hazard alphabets of each format's quantifier (pass 0); pass 1, on a random stream of its own:
+    # the same with atoms that are not in Unicode normal form C / have unusual case mappings / are invisible, and with
+    # LONG patterns (dozens of backslashes, as real-world regular expressions have)
+    main_rng = rng
+    NFC_ATOMS = ["e\u0301", "\u212b", "\u2126", "\u212a", "o\u0302\u0323", "o\u0323\u0302", "\u1100\u1161", "\U0002f800", "\u017f", "\u0131", "\u200c", "\u00ad"]
+    LONG_PATTERNS = [r"^\d{4}-\d{2}-\d{2}T\d{2}:\d{2}:\d{2}(\.\d+)?(Z|[+\-]\d{2}:\d{2})/\d{4}-\d{2}-\d{2}T\d{2}:\d{2}:\d{2}(\.\d+)?(Z|[+\-]\d{2}:\d{2})$" + r"|\w\s\S\W\b" * 4,
+                     "\\" * 40, r"^(\d+\.){12}\d+$" + r"\\" * 3]
+    for hz_pass in (0, 1):
+      rng = main_rng if hz_pass == 0 else random.Random(seed * 29 + 1414)
+      for _ in range((120 if quick else 2500) if hz_pass == 0 else (60 if quick else 800)):
+            fmt = rng.choice(["epm", "jsonld", "shacl", "tsv"])
+            alpha = {"epm": HAZ_EPM, "jsonld": HAZ_JSONLD, "shacl": HAZ_TTL, "tsv": HAZ_TTL}[fmt] + ([a for a in NFC_ATOMS if fmt in ("epm", "jsonld") or a.isprintable()] if hz_pass else [])
+            recs, P, U = [], set(), set()
+            for _ in range(rng.randrange(1, 5)):
+                p = _hz(rng, alpha if fmt != "jsonld" else [a for a in alpha if a != "@"], must=("p" if fmt == "jsonld" else ""))
+                u = _hz(rng, alpha, (1, 8))
+                ps = sorted({_hz(rng, alpha if fmt != "jsonld" else [a for a in alpha if a != "@"], must=("s" if fmt == "jsonld" else "")) for _ in range(rng.randrange(0, 3))} - {p})
+                us = sorted({_hz(rng, alpha, (1, 8)) for _ in range(rng.randrange(0, 3))} - {u})
+                pat = rng.choice((PATTERNS if not hz_pass else LONG_PATTERNS + PATTERNS[:2]) + [None, None]) if fmt in ("epm", "shacl") else None
+                if fmt == "epm" and rng.random() < 0.3:
+                    pat = _hz(rng, alpha, (1, 6))
+                ap, au = {p, *ps}, {u, *us}
+                if ap & P or au & U:
                     continue
-                roundtrip(ci, fmt, syn, expand)
-        if fmt in ("epm", "shacl") and rng.random() < 0.5:
-            # a sibling converter written later in the same process: same records, other patterns / synonym lists that
-            # collide when joined with commas
-            sib = []
-            for r in recs:
-                r2 = dict(r)
-                r2["pat"] = None if r["pat"] else rng.choice(PATTERNS)
-                if len(r["ps"]) >= 2 and fmt == "epm":
-                    r2["ps"] = [",".join(r["ps"])]
-                sib.append(r2)
-            try:
-                ci2 = calls.conv(sib, ":")
-                roundtrip(ci2, fmt, False, False)
-            except Exception:  # noqa: BLE001
-                pass
+                P |= ap
+                U |= au
+                recs.append({"p": p, "u": u, "ps": ps, "us": us, "pat": pat})
+            if not recs:
+                continue
+            ci = calls.conv(recs, ":")
+            for syn in (False, True):
+                for expand in ((False, True) if fmt == "jsonld" else (False,)):
+                    if fmt in ("epm", "tsv") and syn:
+                        continue
+                    roundtrip(ci, fmt, syn, expand)
+            if fmt in ("epm", "shacl") and rng.random() < 0.5:
+                # a sibling converter written later in the same process: same records, other patterns / synonym lists that
+                # collide when joined with commas
+                sib = []
+                for r in recs:
+                    r2 = dict(r)
+                    r2["pat"] = None if r["pat"] else rng.choice(PATTERNS)
+                    if len(r["ps"]) >= 2 and fmt == "epm":
+                        r2["ps"] = [",".join(r["ps"])]
+                    sib.append(r2)
+                try:
+                    ci2 = calls.conv(sib, ":")
+                    roundtrip(ci2, fmt, False, False)
+                except Exception:  # noqa: BLE001
+                    pass
+    rng = main_rng
     shutil.rmtree(tdir, ignore_errors=True)
     batch, group = calls.batch(60)
     fails, stv = tlc.validate_calls(batch, spec="TraceIO.tla", cfg="TraceIO.cfg", timeout=1200 if quick else 3400)
